@@ -175,9 +175,17 @@ def check_minimal_medium(net, bounds, flip, stats, rich=False):
         if z > 0:
             targets += [("half", z / 2), ("optimum", z)]
         targets.append(("unachievable", z + 1))
+        # optimum reachable only with opened exchanges (needs imports beyond the current exchange bounds)
+        ropen = [(rid, stc, (-1000 if len(stc) == 1 else lb), (1000 if len(stc) == 1 else ub)) for rid, stc, lb, ub in rxns]
+        sto, zo, _ = exactlp.FBA(mets, ropen, {oid: 1}, "max").optimum()
+        if sto == OPT and zo > z and zo > 0:
+            targets.append(("open_optimum", zo))
         for (tname, target), exports, oe, mc in itertools.product(
                 targets, (False, True), (False, True, 50), (False, True, 3)):
-            if not rich and sum([exports, oe is not False, mc is not False]) > 1:
+            if not rich and sum([exports, oe is not False, mc is not False]) > 1 and not (
+                    exports is False and oe is True and mc is True):
+                continue
+            if tname == "open_optimum" and oe is False:
                 continue
             case = {"part": "minimal_medium", "net": [list(c) for c in net], "bounds": [[_j(a), _j(b)] for a, b in bounds],
                     "flip": sorted(flip), "objective": oid, "target": tname, "exports": exports, "open_exchanges": oe,
@@ -286,7 +294,8 @@ def run_task(payload):
         net = tuple(tuple(c) for c in net)
         ids = families.rxn_ids(net)
         bnd = [i for i, c in zip(ids, net) if families.is_boundary(c)]
-        for bounds in families.bound_assignments(net, P["d"], P["menu"]):
+        small = tuple((-2, 2) if families.is_boundary(c) else (0, 10) for c in net)
+        for bounds in list(families.bound_assignments(net, P["d"], P["menu"])) + [small]:
             for flip in ([()] + [(b,) for b in bnd] + ([tuple(bnd)] if len(bnd) > 1 else [])):
                 stats["models"] = stats.get("models", 0) + 1
                 violations.extend(check_minimal_medium(net, bounds, set(flip), stats, payload.get("rich", False)))
